@@ -1,7 +1,24 @@
 package main
 
+// Thorough tier: rule liveness self-test. Every discharged obligation records
+// witnesses - the guard condition, error test, lock statement, table cell...
+// that made it hold. Each witness is neutralised in an in-memory copy of the
+// CURRENT source file, the affected module packages are re-type-checked from
+// their syntax (go/types, importer = the packages already loaded), and the
+// obligation must stop being discharged. Nothing is written to disk and no
+// sunlight code is executed. The self-test never changes the verdict on the
+// real tree: it measures whether each rule is live on today's code.
+
 import (
+	"fmt"
 	"go/ast"
+	"go/parser"
+	"go/types"
+	"sort"
+	"strings"
+	"sync"
+
+	"golang.org/x/tools/go/packages"
 )
 
 // Wit builds a witness replacing the source text of node n.
@@ -11,6 +28,242 @@ func (f *Func) Wit(n ast.Node, repl, kind string) Witness {
 	return Witness{File: s.Filename, Start: s.Offset, End: e.Offset, Repl: repl, Kind: kind, Pos: f.Pos(n)}
 }
 
+type mapImporter map[string]*types.Package
+
+func (m mapImporter) Import(path string) (*types.Package, error) {
+	if p, ok := m[path]; ok {
+		return p, nil
+	}
+	return nil, fmt.Errorf("package %s not loaded", path)
+}
+
+// allTypePackages collects every types.Package reachable from the module
+// packages' imports.
+func (p *Program) allTypePackages() map[string]*types.Package {
+	out := map[string]*types.Package{}
+	var walk func(tp *types.Package)
+	walk = func(tp *types.Package) {
+		if tp == nil || out[tp.Path()] != nil {
+			return
+		}
+		out[tp.Path()] = tp
+		for _, i := range tp.Imports() {
+			walk(i)
+		}
+	}
+	for _, pk := range p.All {
+		walk(pk.Types)
+	}
+	return out
+}
+
+// moduleOrder returns the module packages in dependency order and, for each,
+// the module packages it imports.
+func (p *Program) moduleOrder() []*packages.Package {
+	deps := map[string][]string{}
+	for _, pk := range p.All {
+		for _, i := range pk.Types.Imports() {
+			if p.Pkgs[i.Path()] != nil {
+				deps[pk.PkgPath] = append(deps[pk.PkgPath], i.Path())
+			}
+		}
+	}
+	var order []*packages.Package
+	seen := map[string]bool{}
+	var visit func(path string)
+	visit = func(path string) {
+		if seen[path] {
+			return
+		}
+		seen[path] = true
+		for _, d := range deps[path] {
+			visit(d)
+		}
+		order = append(order, p.Pkgs[path])
+	}
+	for _, pk := range p.All {
+		visit(pk.PkgPath)
+	}
+	return order
+}
+
+// mutate builds a Program in which file w.File has w applied, re-checking the
+// package that contains the file and every module package depending on it.
+func (p *Program) mutate(w Witness) (*Program, error) {
+	src, err := p.readFile(w.File)
+	if err != nil {
+		return nil, err
+	}
+	if w.Start < 0 || w.End > len(src) || w.Start > w.End {
+		return nil, fmt.Errorf("witness range out of bounds")
+	}
+	mut := append(append(append([]byte{}, src[:w.Start]...), []byte(w.Repl)...), src[w.End:]...)
+	// find the package and file
+	var target *packages.Package
+	fileIdx := -1
+	for _, pk := range p.All {
+		for i, f := range pk.Syntax {
+			if p.Fset.Position(f.Pos()).Filename == w.File {
+				target, fileIdx = pk, i
+			}
+		}
+	}
+	if target == nil {
+		return nil, fmt.Errorf("file %s not in a module package", w.File)
+	}
+	nf, err := parser.ParseFile(p.Fset, w.File, mut, parser.ParseComments|parser.SkipObjectResolution)
+	if err != nil {
+		return nil, fmt.Errorf("mutant does not parse: %v", err)
+	}
+	imp := mapImporter(p.allTypePackages())
+	np := &Program{Dir: p.Dir, Config: p.Config, Fset: p.Fset, Pkgs: map[string]*packages.Package{}, overlay: map[string][]byte{w.File: mut}}
+	dirty := map[string]bool{target.PkgPath: true}
+	for _, pk := range p.moduleOrder() {
+		need := dirty[pk.PkgPath]
+		for _, i := range pk.Types.Imports() {
+			if dirty[i.Path()] {
+				need = true
+			}
+		}
+		if !need {
+			np.Pkgs[pk.PkgPath] = pk
+			np.All = append(np.All, pk)
+			continue
+		}
+		dirty[pk.PkgPath] = true
+		files := append([]*ast.File{}, pk.Syntax...)
+		if pk == target {
+			files[fileIdx] = nf
+		}
+		info := &types.Info{
+			Types:      map[ast.Expr]types.TypeAndValue{},
+			Defs:       map[*ast.Ident]types.Object{},
+			Uses:       map[*ast.Ident]types.Object{},
+			Implicits:  map[ast.Node]types.Object{},
+			Selections: map[*ast.SelectorExpr]*types.Selection{},
+			Scopes:     map[ast.Node]*types.Scope{},
+			Instances:  map[*ast.Ident]types.Instance{},
+		}
+		var firstErr error
+		conf := types.Config{Importer: imp, Sizes: pk.TypesSizes, Error: func(e error) {
+			if firstErr == nil {
+				firstErr = e
+			}
+		}}
+		if pk.Module != nil && pk.Module.GoVersion != "" {
+			conf.GoVersion = "go" + pk.Module.GoVersion
+		}
+		tp, _ := conf.Check(pk.PkgPath, p.Fset, files, info)
+		if firstErr != nil {
+			return nil, fmt.Errorf("mutant does not compile: %v", firstErr)
+		}
+		imp[pk.PkgPath] = tp
+		npk := &packages.Package{ID: pk.ID, Name: pk.Name, PkgPath: pk.PkgPath, Syntax: files, Types: tp, TypesInfo: info, TypesSizes: pk.TypesSizes, Module: pk.Module}
+		np.Pkgs[pk.PkgPath] = npk
+		np.All = append(np.All, npk)
+	}
+	sort.Slice(np.All, func(i, j int) bool { return np.All[i].PkgPath < np.All[j].PkgPath })
+	np.index()
+	return np, nil
+}
+
+type mutantJob struct {
+	w    Witness
+	uses []mutantUse
+}
+
+type mutantUse struct {
+	ob       *Obligation
+	instance string
+}
+
+func witnessKey(w Witness) string { return fmt.Sprintf("%s:%d:%d:%s", w.File, w.Start, w.End, w.Repl) }
+
 func runSelfTest(p *Program, prop *Property, results []Result) map[string]any {
-	return map[string]any{}
+	obs := map[string]*Obligation{}
+	for _, o := range prop.Obligations {
+		obs[o.ID] = o
+	}
+	jobs := map[string]*mutantJob{}
+	var order []string
+	for _, r := range results {
+		if r.Verdict != Discharged || strings.Contains(r.Instance, " [linux/") {
+			continue
+		}
+		for _, w := range r.Witnesses {
+			if w.File == "" {
+				continue
+			}
+			k := witnessKey(w)
+			if jobs[k] == nil {
+				jobs[k] = &mutantJob{w: w}
+				order = append(order, k)
+			}
+			jobs[k].uses = append(jobs[k].uses, mutantUse{obs[r.Obligation], r.Instance})
+		}
+	}
+	var mu sync.Mutex
+	total, applied, killed := 0, 0, 0
+	var notKilled, skipped []string
+	var samples []map[string]string
+	sem := make(chan struct{}, 8)
+	var wg sync.WaitGroup
+	for _, k := range order {
+		job := jobs[k]
+		wg.Add(1)
+		sem <- struct{}{}
+		go func() {
+			defer wg.Done()
+			defer func() { <-sem }()
+			np, err := p.mutate(job.w)
+			mu.Lock()
+			total += len(job.uses)
+			mu.Unlock()
+			if err != nil {
+				mu.Lock()
+				skipped = append(skipped, fmt.Sprintf("%s (%s): %v", job.w.Pos, job.w.Kind, err))
+				mu.Unlock()
+				return
+			}
+			for _, u := range job.uses {
+				rs := runObligation(np, prop, u.ob, "quick", map[string]bool{})
+				dead := false
+				foundInst := false
+				for _, r := range rs {
+					if r.Verdict != Discharged {
+						dead = true
+					}
+					if r.Instance == u.instance {
+						foundInst = true
+					}
+				}
+				if !foundInst {
+					dead = true
+				}
+				mu.Lock()
+				applied++
+				if dead {
+					killed++
+					if len(samples) < 6 {
+						samples = append(samples, map[string]string{"obligation": u.ob.ID, "instance": u.instance, "mutation": job.w.Kind + " at " + job.w.Pos + " -> " + job.w.Repl, "result": "obligation no longer discharged"})
+					}
+				} else {
+					notKilled = append(notKilled, fmt.Sprintf("%s %s: %s at %s", u.ob.ID, u.instance, job.w.Kind, job.w.Pos))
+				}
+				mu.Unlock()
+			}
+		}()
+	}
+	wg.Wait()
+	sort.Strings(notKilled)
+	sort.Strings(skipped)
+	return map[string]any{
+		"selftest_rule": "every witness recorded by a discharged obligation (guard condition, error test, store, table cell) is neutralised in an in-memory copy of the current file; affected module packages are re-type-checked; the obligation must stop being discharged",
+		"mutants_total":      total,
+		"mutants_applied":    applied,
+		"mutants_killed":     killed,
+		"mutants_skipped":    skipped,
+		"selftest_failures":  notKilled,
+		"selftest_samples":   samples,
+	}
 }
